@@ -111,12 +111,17 @@ func driverRunX(c *core.Ctx, id string, work string, idx int, managed bool, r *r
 		_ = w.DB.Close()
 	}()
 	c.Eval(1)
-	delFrac := 0.25
+	delFrac, expFrac := 0.25, driverExpFrac
+	if gc {
+		// value-log GC re-inserts versions shadowed by a delete or an expired entry (the listed C15
+		// finding); checks other than C15 that include GC steps therefore write overwrites only
+		delFrac, expFrac = 0, 0
+	}
 	for s := 0; s < steps && c.Violations() == 0; s++ {
 		step := ""
 		switch x := r.Intn(100); {
 		case x < 52:
-			if err := w.RandomCommit(delFrac, driverExpFrac); err != nil {
+			if err := w.RandomCommit(delFrac, expFrac); err != nil {
 				c.Violation(id+"|commit-error", err.Error(), w.Witness())
 				return
 			}
@@ -266,10 +271,8 @@ func lmaxScenario(c *core.Ctx, id string, work string, idx int, r *rand.Rand) {
 			c.Violation(id+"|lmax|commit-error", err.Error(), nil)
 			return
 		}
-		if i%40 == 39 {
-			w.Flush()
-		}
 	}
+	// one flush, one compaction: the rewrite picker wants >= 10 MiB of stale data in ONE table
 	w.Flush()
 	for i := 0; i < 6 && w.CompactForce(0, 1); i++ {
 	}
